@@ -477,7 +477,13 @@ impl Engine for C14 {
         indep.remove(4);
         let both = vec![Reg::SEvent(0), Reg::STrigger(0), Reg::IndepEvent(0)];
         let both2 = vec![Reg::SEvent(0), Reg::STrigger(0), Reg::IndepTrigger(0)];
+        let ind_a = vec![Reg::SEvent(0), Reg::SEvent(1), Reg::IndepEvent(0)];
+        let ind_b = vec![Reg::SEvent(0), Reg::SEvent(1), Reg::IndepEvent(1)];
+        let trg_a = vec![Reg::STrigger(0), Reg::STrigger(1), Reg::IndepTrigger(0)];
+        let trg_b = vec![Reg::STrigger(0), Reg::STrigger(1), Reg::IndepTrigger(1)];
         vec![
+            Directed { id: "independence_type", trace: T14 { server: ind_a, client: ind_b, delay: 0, late_client: false }, symptom_oracles: vec![] },
+            Directed { id: "independence_trigger_type", trace: T14 { server: trg_a, client: trg_b, delay: 1, late_client: false }, symptom_oracles: vec![] },
             Directed { id: "independence_kind", trace: T14 { server: both, client: both2, delay: 0, late_client: false }, symptom_oracles: vec![] },
             Directed { id: "equal", trace: T14 { server: base.clone(), client: base.clone(), delay: 1, late_client: false }, symptom_oracles: vec![] },
             Directed { id: "order", trace: T14 { server: base.clone(), client: swapped, delay: 0, late_client: false }, symptom_oracles: vec![] },
